@@ -1,6 +1,7 @@
 package main
 
 import (
+	"sort"
 	"fmt"
 	"go/token"
 	"go/types"
@@ -30,6 +31,7 @@ func runC18(c *Ctx) {
 
 	checkPageTagging(c, "R1")
 	checkNoSliceExtension(c, "R8")
+	checkNoPageRetained(c, "R10")
 
 	// ---------- R2 READ data page tagged with the request's order id ----------
 	{
@@ -882,4 +884,107 @@ func checkNoSliceExtension(c *Ctx, rule string) {
 		})
 	}
 	c.check(n >= 7, rule, "reslice sites in the decode cone", "?", fmt.Sprintf("%d sites", n), fmt.Sprintf("only %d reslice sites found in the decode cone", n))
+}
+
+// checkNoPageRetained (C18.R10): the receive page of a request is released when its response has been written.  A
+// Request that stays in the handle table after that (OPEN, OPENDIR) must not keep a byte slice that points into the
+// page — the attribute bytes of OPEN are the only candidate — or a later packet overwrites it.  In requestFromPacket,
+// under the cases of the packet types that packetWorker enters into the table, every []byte stored into the Request
+// is a fresh copy (append to nil / make), not the decoder's sub-slice of the input.
+func checkNoPageRetained(c *Ctx, rule string) {
+	p := c.P
+	rfp := p.Func("requestFromPacket")
+	worker := p.Func("(*RequestServer).packetWorker")
+	if rfp == nil || worker == nil {
+		c.missing(rule, "requestFromPacket / packetWorker")
+		return
+	}
+	// packet types whose Request is entered into the handle table
+	tabled := map[string]bool{}
+	eachInstr(worker, func(in ssa.Instruction) {
+		cc := callOf(in)
+		if cc == nil || calleeName(cc) != "nextRequest" {
+			return
+		}
+		for _, l := range leavesOf(cc.Args[len(cc.Args)-1]) {
+			if l.Kind == leafCallResult && calleeName(l.Call) == "requestFromPacket" {
+				for _, a := range l.Call.Args {
+					v := a
+					for i := 0; i < 4; i++ {
+						switch x := v.(type) {
+						case *ssa.MakeInterface:
+							v = x.X
+						case *ssa.ChangeInterface:
+							v = x.X
+						case *ssa.Extract:
+							v = x.Tuple
+						case *ssa.TypeAssert:
+							if _, isIface := x.AssertedType.Underlying().(*types.Interface); !isIface {
+								tabled[typeName(x.AssertedType)] = true
+							}
+							i = 4
+						}
+					}
+				}
+			}
+		}
+	})
+	c.check(len(tabled) >= 2, rule, "requests entered into the handle table", p.Pos(worker.Pos()), fmt.Sprintf("%d packet types", len(tabled)), fmt.Sprintf("only %d packet types found whose Request is entered into the handle table (OPEN and OPENDIR expected)", len(tabled)))
+	var sw ssa.Value
+	eachInstr(rfp, func(in ssa.Instruction) {
+		if ta, ok := in.(*ssa.TypeAssert); ok && ta.CommaOk && sw == nil {
+			sw = ta.X
+		}
+	})
+	if sw == nil {
+		c.und(rule, "requestFromPacket switch", p.Pos(rfp.Pos()), "no type switch")
+		return
+	}
+	head := switchHead(rfp, sw)
+	var names []string
+	for t := range tabled {
+		names = append(names, t)
+	}
+	sort.Strings(names)
+	for _, tn := range names {
+		nt := p.NamedType(p.Sftp, tn)
+		if nt == nil {
+			continue
+		}
+		body, def, _ := simulate(head, types.NewPointer(nt))
+		if def || body == nil {
+			c.ok(rule, tn+": no byte slice kept", p.Pos(rfp.Pos()), "no case: nothing of the packet is stored")
+			continue
+		}
+		kept := ""
+		for b := range regionOf(rfp, body) {
+			for _, in := range b.Instrs {
+				st, ok := in.(*ssa.Store)
+				if !ok {
+					continue
+				}
+				t, fname, _, ok := fieldOf(st.Addr)
+				if !ok || typeName(t) != "Request" {
+					continue
+				}
+				if sl, ok := st.Val.Type().Underlying().(*types.Slice); !ok || !isByteType(sl.Elem()) {
+					continue
+				}
+				fresh := false
+				switch v := st.Val.(type) {
+				case *ssa.Call:
+					if builtinName(&v.Call) == "append" && isNilConst(v.Call.Args[0]) {
+						fresh = true
+					}
+				case *ssa.MakeSlice:
+					fresh = true
+				}
+				if !fresh {
+					kept = fname
+				}
+			}
+		}
+		c.check(kept == "", rule, tn+": no byte slice kept", p.Pos(body.Instrs[0].Pos()), "byte slices stored in the long-lived Request are copies",
+			"Request."+kept+" of a request that stays in the handle table is the decoder's sub-slice of the receive buffer: with the allocator that page is recycled once the HANDLE reply is out, and the bytes change under the open handle")
+	}
 }
